@@ -58,7 +58,7 @@ def circuit_duplicate_ids_rejected_anywhere(a: str, b: str, c: str, n: int) -> b
     return (not dup) and [x.id for x in cir.components] == ids
 
 
-def circuit_multiple_grounds_rejected_anywhere(p1: int, p2: int, two: bool) -> bool:
+def circuit_multiple_grounds_rejected_anywhere(p1: int, p2: int, two: bool, same_node: bool) -> bool:
     """
     pre: 0 <= p1 <= 3 and 0 <= p2 <= 4
     post: _
@@ -66,7 +66,7 @@ def circuit_multiple_grounds_rejected_anywhere(p1: int, p2: int, two: bool) -> b
     comps = [ccp.resistor('R1', ('1', '0'), 1.0), ccp.resistor('R2', ('1', '2'), 1.0), ccp.resistor('R3', ('2', '0'), 1.0)]
     comps.insert(p1, ccp.ground('g1', ('0',)))
     if two:
-        comps.insert(p2, ccp.ground('g2', ('2',)))
+        comps.insert(p2, ccp.ground('g2', ('0',) if same_node else ('2',)))
     try:
         cir = Circuit(comps)
     except MultipleGroundNodes:
